@@ -16,7 +16,7 @@ for pid in sorted(props):
         "evidence_file": "/verif/evidence/%s.json" % pid,
         "replay_cmd_template": "./check %s --replay {path}" % pid,
         "engine": "rapid-harness",
-        "level_claimed": {"category": "exploration", "text": c.get("level_text", ""), "design_ref": c.get("design_ref", "DESIGN.md §3 " + pid)},
+        "level_claimed": {"category": "exploration", "text": c.get("level_text", ""), "design_ref": c.get("design_ref", "DESIGN.md Part A (A.2 as built" + (", A.3" if pid == "C19" else "") + ") and Part B §3 " + pid + " (plan)")},
         "level_note": c.get("level_note", "; ".join(c.get("assumptions", []))),
         "technique": c.get("technique", "property-based testing (pgregory.net/rapid) against an explicit oracle"),
     })
